@@ -1529,6 +1529,16 @@ def getattr(I, obj, name):
             return obj
         if name == 'copy':
             return Builtin('scalar.copy', lambda I_, a, k: obj)
+        from .values import SV0d, F0d, I0d
+        if isinstance(obj, (SV0d, F0d, I0d)):
+            if name == 'shape':
+                return ()
+            if name == 'ndim':
+                return 0
+            if name == 'size':
+                return 1
+            if name == 'tolist':
+                return Builtin('scalar.tolist', lambda I_, a, k: obj)
         raise PyExc('AttributeError', name)
     if obj is None:
         raise PyExc('AttributeError', name)
